@@ -442,7 +442,7 @@ public:
         /// media from it, false for ending mute state
         bool isMute = true;
         /// Creator of the corresponding session
-        Creator creator;
+        Creator creator = Initiator;
         /// Session to be muted (e.g., only audio or video)
         QString name;
     };
